@@ -10,7 +10,7 @@
 From Coq Require Import Reals ZArith List String.
 From Coquelicot Require Import Coquelicot.
 From Verif Require Import lib.Dual lib.DualR gen.AldiGen gen.AldiFdGen model.AldiTree model.AldiDen model.AldiMaps
-     proofs.AldiProofs.
+     proofs.AldiProofs model.AldiSelect proofs.AldiSelectProofs.
 Import ListNotations.
 Local Open Scope R_scope.
 
@@ -256,3 +256,60 @@ Example C02_hypotheses_satisfiable :
   let rho : token -> R := fun _ => 4 in
   adm t rho /\ (exists d, eval RD rho (ind RD (0%Z, 0%Z)) (fun _ => false) t = VA d /\ snd d = 1).
 Proof. exact hypotheses_satisfiable. Qed.
+
+
+(* ---- 7. steady plans (fix_level / fix_change): the columns kept from the full non-flat Jacobian
+        [levels of all wrt_qids | changes of all wrt_qids] are those of the unknowns
+        [iterated levels | iterated changes], for EVERY pair of subsets (steadiers/evaluators.py eval_jacob) -------- *)
+Theorem C02_steady_plan_columns : forall (V : Type) (d : label -> V) (wrt levels changes : list Z),
+  reduce_row (mask_of wrt levels) (mask_of wrt changes) (map d (full_labels wrt))
+  = map d (unknown_labels wrt (mask_of wrt levels) (mask_of wrt changes)).
+Proof. exact (@plan_reduced_row_is_unknowns). Qed.
+Print Assumptions C02_steady_plan_columns.
+
+Theorem C02_steady_plan_entry : forall (V : Type) (d : label -> V) (wrt : list Z) (ml mc : list bool) (j : nat) (u : label) (dflt : V),
+  List.length ml = List.length wrt ->
+  nth_error (unknown_labels wrt ml mc) j = Some u ->
+  nth j (reduce_row ml mc (map d (full_labels wrt))) dflt = d u.
+Proof. exact (@reduced_entry_is_unknown). Qed.
+Print Assumptions C02_steady_plan_entry.
+
+Theorem C02_steady_column_index : forall (V : Type) (ml mc : list bool) (rowL rowC : list V) (d : V),
+  List.length ml = List.length rowL -> List.length mc = List.length rowC ->
+  gather (column_index ml mc (List.length rowL)) (rowL ++ rowC) d = reduce_row ml mc (rowL ++ rowC).
+Proof. exact (@column_index_correct). Qed.
+Print Assumptions C02_steady_column_index.
+
+Theorem C02_steady_column_index_offset_by_iterated_levels_refuted :
+  exists (wrt : list Z) (ml mc : list bool),
+    gather (column_index ml mc (count_true ml)) (full_labels wrt) (false, 0%Z) <> unknown_labels wrt ml mc.
+Proof. exact column_index_offset_by_iterated_levels_refuted. Qed.
+Print Assumptions C02_steady_column_index_offset_by_iterated_levels_refuted.
+
+(* ---- 8. the terminator caches the rows of the terminal map on its first call: with the STRUCTURAL pattern
+        (the same at every evaluation point) every later call, at any point, adds the full terminal-condition
+        correction; with the pattern of the non-zero VALUES of the first call it does not -------------------------- *)
+Theorem C02_terminal_rows_every_call : forall (V : Type) (zero : V) (add : V -> V -> V),
+  (forall x, add x zero = x) ->
+  forall (S : list nat) pairs calls st,
+  (st = None \/ st = Some S) ->
+  List.Forall (fun call => fst (fst call) = S /\ zero_outside zero S (snd call)) calls ->
+  List.Forall2 (fun out call => forall r c, out r c = corrected_all add pairs (snd (fst call)) (snd call) r c)
+          (trun add st pairs calls) calls.
+Proof. exact (@trun_structural_valid). Qed.
+Print Assumptions C02_terminal_rows_every_call.
+
+Theorem C02_structural_rows_cover : forall (V : Type) (m : coo V) r c v, ~ In r (coo_rows m) -> ~ In (r, c, v) m.
+Proof. exact (@outside_coo_rows_no_entry). Qed.
+Print Assumptions C02_structural_rows_cover.
+
+Theorem C02_terminal_value_pattern_refuted :
+  exists (pairs : list (nat * nat)) (t1 t2 : coo Z) (regular : nat -> nat -> Z),
+    map (fun e => fst e) t1 = map (fun e => fst e) t2 /\
+    let addm (t : coo Z) : nat -> nat -> Z :=
+        fun r c => fold_right Z.add 0%Z (map (fun e => if andb (Nat.eqb (fst (fst e)) r) (Nat.eqb (snd (fst e)) c) then snd e else 0%Z) t) in
+    let calls := [ (nonzero_rows (Z.eqb 0) t1, regular, addm t1); (nonzero_rows (Z.eqb 0) t2, regular, addm t2) ] in
+    exists out1 out2, trun Z.add None pairs calls = [out1; out2] /\
+      out2 0%nat 0%nat <> corrected_all Z.add pairs regular (addm t2) 0%nat 0%nat.
+Proof. exact trun_value_pattern_refuted. Qed.
+Print Assumptions C02_terminal_value_pattern_refuted.
